@@ -346,11 +346,14 @@ def chunks(tier, seed):
 
 
 def _container_ops(fam):
-    """ops of a family that touch a container-valued attribute (found by diffing copy vs receiver at depth 1)."""
+    """ops of a family that touch a container-valued attribute (found by diffing copy vs receiver at depth 1), one
+    representative op per distinct set of touched attributes (the triples are cubic in this list; every op is still
+    covered by the pairs)."""
     seeds, ops = FAM[fam]
     res = []
+    seen_sets = set()
     for k, fn in ops.items():
-        touched = False
+        touched = set()
         for sname, fac in seeds.items():
             r = fac()
             before = {a: v for a, v in (odict(r) or {}).items()}
@@ -361,10 +364,11 @@ def _container_ops(fam):
             d = odict(x) or {}
             for a, v in d.items():
                 if isinstance(v, (list, set, dict)) and (a not in before or fp.deepfp_str(before[a]) != fp.deepfp_str(v)):
-                    touched = True
+                    touched.add(a)
             if type(x) is not type(r):
-                touched = True
-        if touched:
+                touched.add("<type>")
+        if touched and frozenset(touched) not in seen_sets:
+            seen_sets.add(frozenset(touched))
             res.append(k)
     return res
 
